@@ -4,9 +4,11 @@ R-C28.1  no method of the configuration classes mutates an object that an earlie
          configuration (or the caller) can also reach: mutation targets must be *fresh*
          objects (constructed, copied or `replace`d in the same method), tracked with a
          small ownership/alias analysis (dataclasses.replace and copy.copy are shallow).
-R-C28.2  the configuration classes are frozen dataclasses; every with_*/..._sim method
-         returns a new configuration built by replace/_with_option; `_with_option` is a
-         pure `replace`; builder dict options are rebuilt, not updated in place.
+R-C28.2  the configuration classes are frozen dataclasses; every with_* / *_sim method of the instance and every with_* method
+         of the builder is interpreted on identity-carrying tokens (replace / copy.copy by contract), from an unseeded and from
+         a seeded configuration: the result is a new object, the original configuration, everything it shares and the object
+         the caller passed in are unchanged, with_seed and *_sim give the result its own simulator (c28_derive.py; the
+         `replace(self, …)` shapes only as fallback).
 R-C28.3  run() hands the configured seed to the backend and only reads options.
 Not decided: reproducibility of the simulator backends themselves.
 """
@@ -147,65 +149,69 @@ def run(ctx: Ctx) -> None:
     ctx.floor("R-C28.1", "configuration-class methods analysed", n_meth, 40)
 
     # ------------------------------------------------------------ R-C28.2 pure derivations
-    wo = inst.methods.get("_with_option")
-    if wo is None:
-        raise AnalysisError("EmulatorInstance._with_option vanished")
-    rets = [r.value for r in walk_no_nested(wo.node) if isinstance(r, ast.Return)]
-    single: dict[str, list] = {}
-    for n in walk_no_nested(wo.node):
-        if isinstance(n, ast.Assign) and len(n.targets) == 1 and isinstance(n.targets[0], ast.Name):
-            single.setdefault(n.targets[0].id, []).append(n.value)
-
-    def through_local(e):
-        # a local bound exactly once stands for its value (`new_options = replace(...)` ... `_options=new_options`)
-        while isinstance(e, ast.Name) and len(single.get(e.id, ())) == 1:
-            e = single[e.id][0]
-        return e
-
-    ret0 = through_local(rets[0]) if len(rets) == 1 else None
-    ok = isinstance(ret0, ast.Call) and call_name(ret0) == "replace" and bool(ret0.args) and dotted(ret0.args[0]) == "self" \
-        and any(k.arg == "_options" and isinstance(through_local(k.value), ast.Call) and call_name(through_local(k.value)) == "replace"
-                and ast.unparse(through_local(k.value).args[0]) == "self._options" for k in ret0.keywords)
-    ctx.check(ok, "R-C28.2", f"{wo.qualname}#pure-replace", wo.where, {"returns": [ast.unparse(r) for r in rets if r is not None]},
-              "_with_option does not build a new configuration from a new options object")
+    from . import c28_derive
+    sem = c28_derive.run(ctx, inst, bld)
     derive = [(n, f) for n, f in sorted(inst.methods.items()) if n.startswith("with_") or n.endswith("_sim")]
     ctx.floor("R-C28.2", "derivation methods", len(derive), 16)
-    for name, f in derive:
-        rets = [r.value for r in walk_no_nested(f.node) if isinstance(r, ast.Return)]
-        locs = origins(f)
-        depth_of = locs.pop("<depth_of>")
+    if not sem:
+        # fallback (some method not interpretable): derivations are syntactically `replace(self, …)` / `self._with_option(…)`
+        wo = inst.methods.get("_with_option")
+        if wo is None:
+            raise AnalysisError("EmulatorInstance._with_option vanished")
+        rets = [r.value for r in walk_no_nested(wo.node) if isinstance(r, ast.Return)]
+        single: dict[str, list] = {}
+        for n in walk_no_nested(wo.node):
+            if isinstance(n, ast.Assign) and len(n.targets) == 1 and isinstance(n.targets[0], ast.Name):
+                single.setdefault(n.targets[0].id, []).append(n.value)
 
-        def is_new_config(v: ast.AST | None) -> bool:
-            if v is None:
+        def through_local(e):
+            # a local bound exactly once stands for its value (`new_options = replace(...)` ... `_options=new_options`)
+            while isinstance(e, ast.Name) and len(single.get(e.id, ())) == 1:
+                e = single[e.id][0]
+            return e
+
+        ret0 = through_local(rets[0]) if len(rets) == 1 else None
+        ok = isinstance(ret0, ast.Call) and call_name(ret0) == "replace" and bool(ret0.args) and dotted(ret0.args[0]) == "self" \
+            and any(k.arg == "_options" and isinstance(through_local(k.value), ast.Call) and call_name(through_local(k.value)) == "replace"
+                    and ast.unparse(through_local(k.value).args[0]) == "self._options" for k in ret0.keywords)
+        ctx.check(ok, "R-C28.2", f"{wo.qualname}#pure-replace", wo.where, {"returns": [ast.unparse(r) for r in rets if r is not None]},
+                  "_with_option does not build a new configuration from a new options object")
+        for name, f in derive:
+            rets = [r.value for r in walk_no_nested(f.node) if isinstance(r, ast.Return)]
+            locs = origins(f)
+            depth_of = locs.pop("<depth_of>")
+
+            def is_new_config(v: ast.AST | None) -> bool:
+                if v is None:
+                    return False
+                if isinstance(v, ast.Name) and v.id != "self":
+                    return locs.get(v.id, 0) >= 1
+                if isinstance(v, ast.Call):
+                    n = call_name(v)
+                    if n == "replace" and v.args and dotted(v.args[0]) == "self":
+                        return True
+                    if isinstance(v.func, ast.Attribute) and dotted(v.func.value) == "self" and (n == "_with_option" or n.startswith("with_")):
+                        return True
                 return False
-            if isinstance(v, ast.Name) and v.id != "self":
-                return locs.get(v.id, 0) >= 1
-            if isinstance(v, ast.Call):
-                n = call_name(v)
-                if n == "replace" and v.args and dotted(v.args[0]) == "self":
-                    return True
-                if isinstance(v.func, ast.Attribute) and dotted(v.func.value) == "self" and (n == "_with_option" or n.startswith("with_")):
-                    return True
-            return False
-        ctx.check(bool(rets) and all(is_new_config(v) for v in rets), "R-C28.2", f"{f.qualname}#returns-new-configuration", f.where,
-                  {"returns": [ast.unparse(v) if v is not None else None for v in rets]},
-                  f"`{name}` can return the configuration it was called on (or something not derived by replace): later derivations act on "
-                  f"the shared object")
-        if name.endswith("_sim"):
-            fresh = [c for c in calls_in(f.node) if call_name(c) == "with_simulator" and c.args and isinstance(c.args[0], ast.Call)
-                     and isinstance(c.args[0].func, ast.Name) and c.args[0].func.id[:1].isupper()]
-            ctx.check(len(fresh) == len(rets) and bool(fresh), "R-C28.2", f"{f.qualname}#fresh-simulator", f.where,
-                      {"constructs": [ast.unparse(c.args[0]) for c in fresh]},
-                      f"`{name}` does not install a freshly constructed simulator")
-    # builder: with_* returns replace(self, ...) ; dict-valued options rebuilt
-    bderive = [(n, f) for n, f in sorted(bld.methods.items()) if n.startswith("with_")]
-    ctx.floor("R-C28.2", "builder derivation methods", len(bderive), 3)
-    for name, f in bderive:
-        rets = [r.value for r in walk_no_nested(f.node) if isinstance(r, ast.Return)]
-        ok = bool(rets) and all(isinstance(v, ast.Call) and ((call_name(v) == "replace" and v.args and dotted(v.args[0]) == "self")
-                                                              or (isinstance(v.func, ast.Attribute) and dotted(v.func.value) == "self")) for v in rets)
-        ctx.check(ok, "R-C28.2", f"{f.qualname}#returns-new-builder", f.where, {"returns": [ast.unparse(v) if v is not None else None for v in rets]},
-                  f"builder method `{name}` does not return a new builder")
+            ctx.check(bool(rets) and all(is_new_config(v) for v in rets), "R-C28.2", f"{f.qualname}#returns-new-configuration", f.where,
+                      {"returns": [ast.unparse(v) if v is not None else None for v in rets]},
+                      f"`{name}` can return the configuration it was called on (or something not derived by replace): later derivations act on "
+                      f"the shared object")
+            if name.endswith("_sim"):
+                fresh = [c for c in calls_in(f.node) if call_name(c) == "with_simulator" and c.args and isinstance(c.args[0], ast.Call)
+                         and isinstance(c.args[0].func, ast.Name) and c.args[0].func.id[:1].isupper()]
+                ctx.check(len(fresh) == len(rets) and bool(fresh), "R-C28.2", f"{f.qualname}#fresh-simulator", f.where,
+                          {"constructs": [ast.unparse(c.args[0]) for c in fresh]},
+                          f"`{name}` does not install a freshly constructed simulator")
+        # builder: with_* returns replace(self, ...) ; dict-valued options rebuilt
+        bderive = [(n, f) for n, f in sorted(bld.methods.items()) if n.startswith("with_")]
+        ctx.floor("R-C28.2", "builder derivation methods", len(bderive), 3)
+        for name, f in bderive:
+            rets = [r.value for r in walk_no_nested(f.node) if isinstance(r, ast.Return)]
+            ok = bool(rets) and all(isinstance(v, ast.Call) and ((call_name(v) == "replace" and v.args and dotted(v.args[0]) == "self")
+                                                                  or (isinstance(v.func, ast.Attribute) and dotted(v.func.value) == "self")) for v in rets)
+            ctx.check(ok, "R-C28.2", f"{f.qualname}#returns-new-builder", f.where, {"returns": [ast.unparse(v) if v is not None else None for v in rets]},
+                      f"builder method `{name}` does not return a new builder")
     # accessors handing out internal mutable containers must copy
     for name, f in sorted(bld.methods.items()):
         if "property" not in f.decorator_names():
